@@ -401,8 +401,31 @@ fn radius() -> BoxedStrategy<f64> {
 }
 
 fn strat_rad() -> BoxedStrategy<RadCase> {
-  (gens::depth(), gens::position_principal(), radius(), prop::collection::vec((0.0f64..=1.0, 0.0f64..geom::TWO_PI), 8..24))
-    .prop_map(|(depth, pos, radius, wit)| RadCase { depth, pos, radius, wit })
+  let generic = (gens::depth(), gens::position_principal(), radius(), prop::collection::vec((0.0f64..=1.0, 0.0f64..geom::TWO_PI), 8..24))
+    .prop_map(|(depth, pos, radius, wit)| RadCase { depth, pos, radius, wit });
+  prop_oneof![4 => generic, 1 => strat_rad_corner()].boxed()
+}
+
+/// Directed class: the cone reaches one of the 16 corner cells of the polar-cap base cells (centre on
+/// the transition latitude, next to a meridian k pi/2: the cells for which the bound has no slack)
+/// with the very end of its longitude extent -- the point of the rim of largest longitude excursion
+/// is placed a relative 1e-9 .. 1e-1 beyond the centre of that cell.  This is where the longitude
+/// extent of the cone (`cone_max_dlon`) is the binding term of the bound.
+fn strat_rad_corner() -> BoxedStrategy<RadCase> {
+  (gens::depth(), 0u8..4, any::<bool>(), any::<bool>(), any::<bool>(), -3.0f64..-0.05, -9.0f64..-1.0, prop::collection::vec((0.0f64..=1.0, 0.0f64..geom::TWO_PI), 8..16))
+    .prop_map(|(depth, q, south, east_corner, from_west, lr, leps, wit)| {
+      let n = 1i64 << depth;
+      let m = (n - 1) as u32;
+      let cell = Cell { b: if south { 8 + q } else { q }, i: if east_corner { m } else { 0 }, j: if east_corner { 0 } else { m } };
+      let (cl, cb) = geom::cell_center_sphere(n, cell);
+      let r = (10.0f64).powf(lr);
+      let eps = (10.0f64).powf(leps);
+      // centre latitude such that the point of largest longitude excursion of the rim is at latitude cb
+      let phi = (cb.sin() * r.cos()).asin();
+      let dlon = (r.sin() / phi.cos()).min(1.0).asin();
+      let lon = if from_west { cl - dlon * (1.0 - eps) } else { cl + dlon * (1.0 - eps) };
+      RadCase { depth, pos: Pos::new(lon.rem_euclid(geom::TWO_PI), phi, "extreme_lon_at_corner_cell"), radius: r, wit }
+    })
     .boxed()
 }
 
